@@ -1,6 +1,7 @@
 /- Driver.Ops — the op table. -/
 import Driver.OpsPath
 import Driver.OpsKey
+import Driver.OpsLeaf
 namespace Mxj.Drv
 
 def dispatch (op : String) (args : List String) : Out :=
@@ -12,6 +13,7 @@ def dispatch (op : String) (args : List String) : Out :=
   | "vfk" => runP opVfk args
   | "pfk" => runP opPfk args
   | "hsk" => runP opHsk args
+  | "leaf" => runP opLeaf args
   | _ => "bad-op"
 
 end Mxj.Drv
